@@ -553,6 +553,9 @@ class StreamReader:
         return chunk
 
     def _read_nowait_chunk(self, n: int) -> bytes:
+        # Every way of taking buffered data notices an expired timeout
+        # (readline, readuntil and readchunk come here directly).
+        self._timer.assert_timeout()
         first_buffer = self._buffer[0]
         offset = self._buffer_offset
         if n != -1 and len(first_buffer) - offset > n:
